@@ -225,9 +225,71 @@ theorem admitCall_subject (s : State) (c : Nat) (hr : s.running.count c = 0) (hf
       have hz : ((s.running ++ [c]).erase c).count c = 0 := by rw [count_erase_self', count_snoc]; simp; omega
       omega
 
+/-- a refused request (its handle did not become ready) only leaves a result and a script entry behind -/
+theorem refuseCall_fields (s : State) (c : Nat) (kind : Option Nat) :
+    ∃ r, r ≠ Res.timeout ∧ (refuseCall s c kind).fresh = s.fresh ∧ (refuseCall s c kind).queue = s.queue ∧
+      (refuseCall s c kind).assigned = s.assigned ∧ (refuseCall s c kind).running = s.running ∧
+      (refuseCall s c kind).log = s.log ++ [.result c r] ∧
+      (refuseCall s c kind).script = (c, { lat := 0, out := .ok }) :: s.script := by
+  cases kind with
+  | none => exact ⟨.notReady, by simp, rfl, rfl, rfl, rfl, rfl, rfl⟩
+  | some k => exact ⟨.inner k 0, by simp, rfl, rfl, rfl, rfl, rfl, rfl⟩
+
 theorem stepS_inv2 (cfg : Cfg) (s : State) (op : Op) (h : Inv2 s) : Inv2 (stepS cfg s op) := by
   cases op with
   | adv ms => exact ⟨h.once, h.isKnown, h.waiting, h.running, h.unknown⟩
+  | tick n => exact ⟨h.once, h.isKnown, h.waiting, h.running, h.unknown⟩
+  | refuse c kind =>
+    simp only [stepS]
+    split
+    · exact h
+    · rename_i hk
+      have hk' : known s c = false := by simpa using hk
+      have hocc0 : occ s c = 0 := by
+        by_cases ho : occ s c ≥ 1
+        · have := h.isKnown c ho; rw [hk'] at this; cases this
+        · omega
+      obtain ⟨r, _, f1, f2, f3, f4, f5, f6⟩ := refuseCall_fields s c kind
+      have hocc : ∀ x, occ (refuseCall s c kind) x = occ s x := by
+        intro x; simp only [occ, f1, f2, f3, f4]
+      have hkn : ∀ x, known (refuseCall s c kind) x = (decide (c = x) || known s x) := by
+        intro x; simp only [known, f6, lookup]
+        by_cases hcx : c = x <;> simp [hcx]
+      have keep : ∀ x, x ≠ c → NoCall s x ∧ NoResult s x → NoCall (refuseCall s c kind) x ∧ NoResult (refuseCall s c kind) x := by
+        intro x hx ⟨a, b⟩
+        refine ⟨?_, ?_⟩
+        · intro k hm; rw [f5] at hm
+          rcases List.mem_append.mp hm with hm | hm
+          · exact a k hm
+          · simp at hm
+        · intro r' hm; rw [f5] at hm
+          rcases List.mem_append.mp hm with hm | hm
+          · exact b r' hm
+          · simp at hm; exact hx hm.1
+      have keepR : ∀ x, x ≠ c → NoResult s x → NoResult (refuseCall s c kind) x := by
+        intro x hx b r' hm; rw [f5] at hm
+        rcases List.mem_append.mp hm with hm | hm
+        · exact b r' hm
+        · simp at hm; exact hx hm.1
+      refine ⟨?_, ?_, ?_, ?_, ?_⟩
+      · intro x; rw [hocc]; exact h.once x
+      · intro x hx; rw [hocc] at hx; rw [hkn]; simp [h.isKnown x hx]
+      · intro x hx
+        rw [f1, f2, f3] at hx
+        have hxc : x ≠ c := by intro hh; subst hh; simp only [occ] at hocc0; omega
+        exact keep x hxc (h.waiting x hx)
+      · intro x hx
+        rw [f4] at hx
+        have hxc : x ≠ c := by intro hh; subst hh; simp only [occ] at hocc0; omega
+        exact keepR x hxc (h.running x hx)
+      · intro x hx
+        rw [hkn] at hx
+        have hxc : x ≠ c := by intro hh; subst hh; simp at hx
+        have : known s x = false := by
+          cases hh : known s x with
+          | false => rfl
+          | true => simp [hh] at hx
+        exact keep x hxc (h.unknown x this)
   | arrive c sc =>
     simp only [stepS]
     split
@@ -504,6 +566,21 @@ theorem gone_stays_clean (cfg : Cfg) (s : State) (c : Nat) (hk : known s c = tru
       noCall_of_trans ht (Ne.symm hx) hn⟩
   cases op with
   | adv ms => exact ⟨hk, ho, hn⟩
+  | tick n => exact ⟨hk, ho, hn⟩
+  | refuse x kind =>
+    simp only [stepS]
+    split
+    · exact ⟨hk, ho, hn⟩
+    · rename_i hkx
+      have hxc : x ≠ c := by intro hh; subst hh; exact hkx hk
+      obtain ⟨r, _, f1, f2, f3, f4, f5, f6⟩ := refuseCall_fields s x kind
+      refine ⟨?_, ?_, ?_⟩
+      · simp only [known, f6, lookup]; simp [hxc]; simpa [known] using hk
+      · simp only [occ, f1, f2, f3, f4] at ho ⊢; exact ho
+      · intro k hm; rw [f5] at hm
+        rcases List.mem_append.mp hm with hm | hm
+        · exact hn k hm
+        · simp at hm
   | arrive x sc =>
     simp only [stepS]
     split
@@ -566,6 +643,23 @@ theorem timeoutClean_step (cfg : Cfg) (s : State) (op : Op) (h2 : Inv2 s) (h : T
   intro c hc
   cases op with
   | adv ms => exact h c hc
+  | tick n => exact h c hc
+  | refuse x kind =>
+    simp only [stepS] at hc ⊢
+    by_cases hkx : known s x = true
+    · simp only [hkx, if_true] at hc ⊢; exact h c hc
+    · have hkx' : known s x = false := by simpa using hkx
+      simp only [hkx', Bool.false_eq_true, if_false] at hc ⊢
+      obtain ⟨r, hr, _, _, _, _, f5, _⟩ := refuseCall_fields s x kind
+      rw [f5] at hc
+      have hold : Ev.result c .timeout ∈ s.log := by
+        rcases List.mem_append.mp hc with hh | hh
+        · exact hh
+        · simp at hh; exact absurd hh.2.symm hr
+      intro k hm; rw [f5] at hm
+      rcases List.mem_append.mp hm with hm | hm
+      · exact h c hold k hm
+      · simp at hm
   | arrive x sc => simp only [stepS] at hc ⊢; split at hc <;> (split <;> first | exact h c hc | (rename_i h1 h2'; exact absurd h1 h2') | (rename_i h1 h2'; exact absurd h2' h1))
   | poll x =>
     by_cases hx : x = c
